@@ -6,19 +6,42 @@ namespace AsyncsshModel.HostTrust
 
 variable {Hash Sig : Type}
 
+/-- what a successful `validate_server_host_key` means: the trust decision accepted the blob as key `k` and the
+    blob fits the negotiated host key algorithm -/
+theorem validateServerHostKey_ok {cfg : Cfg Hash Sig} {now4 : Nat} {p : Presented} {sg : Sig} {k : KeyId}
+    (h : validateServerHostKey cfg now4 p sg = .ok k) :
+    validateHostKey cfg.trust cfg.app cfg.host cfg.addr cfg.port now4 p = .ok k ∧ cfg.keyAlgOk p = true := by
+  unfold validateServerHostKey at h
+  split at h
+  · simp at h
+  · rename_i hka
+    cases hv : validateHostKey cfg.trust cfg.app cfg.host cfg.addr cfg.port now4 p with
+    | error r => simp [hv] at h
+    | ok k' =>
+      simp only [hv, Except.ok.injEq] at h
+      subst h
+      refine ⟨rfl, ?_⟩
+      by_cases hg : p = .garbage
+      · subst hg; simp [validateHostKey] at hv
+      · cases hk : cfg.keyAlgOk p with
+        | true => rfl
+        | false => exact absurd ⟨hg, hk⟩ hka
+
 /-- Trust is established in the trace `acc` (w.r.t. the events `all` the environment supplied): some KEX reply of
-    `all` carried a blob the decision accepted as key `k` and a signature that verifies under `k` over the exchange
-    hash `h`, and the trace shows `hostKeyAccepted k` followed by `sigVerified k h`. -/
+    `all` carried a blob the decision accepted as key `k`, usable with the negotiated host key algorithm, and a
+    signature that names that algorithm's signature algorithm and verifies under `k` over the exchange hash `h`,
+    and the trace shows `hostKeyAccepted k` followed by `sigVerified k h`. -/
 def Est (cfg : Cfg Hash Sig) (all : List (Ev Hash Sig)) (acc : List (Out Hash)) : Prop :=
   ∃ p h sg now4 k, Ev.kexReply p h sg now4 ∈ all ∧
     validateHostKey cfg.trust cfg.app cfg.host cfg.addr cfg.port now4 p = .ok k ∧
+    cfg.keyAlgOk p = true ∧ cfg.sigAlgOk sg = true ∧
     cfg.verify k h sg = true ∧
     [Out.hostKeyAccepted k, Out.sigVerified k h].Sublist acc
 
 theorem Est.mono {cfg : Cfg Hash Sig} {all acc} (more : List (Out Hash)) (h : Est cfg all acc) :
     Est cfg all (acc ++ more) := by
-  obtain ⟨p, hh, sg, now4, k, hm, hv, hs, hsub⟩ := h
-  exact ⟨p, hh, sg, now4, k, hm, hv, hs, hsub.trans (List.sublist_append_left acc more)⟩
+  obtain ⟨p, hh, sg, now4, k, hm, hv, hka, hsa, hs, hsub⟩ := h
+  exact ⟨p, hh, sg, now4, k, hm, hv, hka, hsa, hs, hsub.trans (List.sublist_append_left acc more)⟩
 
 /-- every auth-traffic item of `l` (appended after `acc`) is preceded by established trust -/
 def Safe (cfg : Cfg Hash Sig) (all : List (Ev Hash Sig)) : List (Out Hash) → List (Out Hash) → Prop
@@ -137,16 +160,22 @@ theorem step_inv (cfg : Cfg Hash Sig) (all : List (Ev Hash Sig)) (acc : List (Ou
       dsimp only
       split
       · exact failcase _ [] (by simp)
-      · cases hv : validateHostKey cfg.trust cfg.app cfg.host cfg.addr cfg.port now4 p with
-        | error r =>
+      · cases hv' : validateServerHostKey cfg now4 p sg with
+        | error er =>
+          obtain ⟨e', r⟩ := er
           dsimp only
           exact failcase _ [.hostKeyRejected r] (by simp [Out.isAuthTraffic])
         | ok k =>
+          obtain ⟨hv, hka⟩ := validateServerHostKey_ok hv'
           dsimp only
-          by_cases hs : cfg.verify k h sg = true
-          · simp only [hs, if_true]
+          by_cases hs2 : (cfg.verify k h sg && cfg.sigAlgOk sg) = true
+          · have hs : cfg.verify k h sg = true := by
+              simp only [Bool.and_eq_true] at hs2; exact hs2.1
+            have hsa : cfg.sigAlgOk sg = true := by
+              simp only [Bool.and_eq_true] at hs2; exact hs2.2
+            simp only [hs2, if_true]
             have hest : Est cfg all (acc ++ [Out.hostKeyAccepted k, Out.sigVerified k h]) :=
-              ⟨p, h, sg, now4, k, he, hv, hs, List.sublist_append_right acc _⟩
+              ⟨p, h, sg, now4, k, he, hv, hka, hsa, hs, List.sublist_append_right acc _⟩
             refine ⟨⟨by simp, by simp, by simp⟩, ?_, ?_⟩
             · have : ([Out.hostKeyAccepted k, Out.sigVerified k h, Out.sendNewkeys] ++
                   (if (!s.haveSession) = true then [Out.sendServiceRequest] else []) ++
@@ -163,7 +192,7 @@ theorem step_inv (cfg : Cfg Hash Sig) (all : List (Ev Hash Sig)) (acc : List (Ou
                   (if (!s.haveSession) = true then [Out.sendServiceRequest] else []) ++
                   List.replicate s.deferredAuth Out.sendUserauthRequest)
               simpa [List.append_assoc] using this
-          · simp only [hs, Bool.false_eq_true, if_false]
+          · simp only [hs2, Bool.false_eq_true, if_false]
             exact failcase _ [.hostKeyAccepted k, .sigBad k] (by simp [Out.isAuthTraffic])
 
 /-- the run-level invariant -/
